@@ -33,6 +33,11 @@ def base_syms(sym, out=None):
         return out
     if sym[0] == "const":
         return out
+    if sym[0] == "anyof":
+        for conj in sym[1]:
+            for c, _ in conj:
+                base_syms(c, out)
+        return out
     for s in (sym[1:] if isinstance(sym[0], str) else sym):
         if isinstance(s, tuple):
             base_syms(s, out)
@@ -229,6 +234,17 @@ def _code(sym, index):
         return "{}({})".format(h, ", ".join(_code(s, index) for s in sym[1:]))
     if h == "abs":
         return "abs({})".format(_code(sym[1], index))
+    if h == "anyof":
+        alts = []
+        for conj in sym[1]:
+            parts = []
+            for c, truth in conj:
+                try:
+                    parts.append("(bool({}) is {})".format(_code(c, index), bool(truth)))
+                except Undecided:
+                    continue
+            alts.append("(" + (" and ".join(parts) if parts else "True") + ")")
+        return "(" + " or ".join(alts) + ")"
     raise Undecided("term head " + str(h))
 
 
